@@ -65,6 +65,10 @@ SNIPPETS = [
     ('rollaxis view written through, transpose', "def f(a, b, v):\n    c = np.array([a, a * 2])\n    r = np.rollaxis(c, axis=2, start=0)\n    r[0, 0, 0] = -1.\n    return np.transpose(c, (1, 0, 2))\n"),
     ('rollaxis forward and back', "def f(a, b, v):\n    c = np.array([a, a * 2, a * 3])\n    return np.rollaxis(np.rollaxis(c, 2, 0), 1, 3)\n"),
     ('moveaxis', "def f(a, b, v):\n    c = np.array([a, a * 2])\n    return np.moveaxis(c, 0, 2)\n"),
+    # structured records (pyvc/recarr.py)
+    ('structured record: field views write through', "def f(a, b, v):\n    dt = np.dtype(dict(names=['h', 'd'], formats=['>i4', '(4,)>f4']))\n    r = np.zeros((1,), dtype=dt)\n    d = r['d']\n    d[:] = b\n    r['h'] = 7\n    return r['d'][0] * r['h']\n"),
+    ('structured record: nested struct, one-field struct from a trailing comma', "def f(a, b, v):\n    hd = np.dtype(dict(names=['m', 'n'], formats=['>i4,', '2>f4']))\n    dt = np.dtype(dict(names=['header', 'x'], formats=[hd, '>f4']))\n    r = np.zeros((1,), dtype=dt)\n    h = r['header']\n    h['m'] = 3\n    h['n'] = v[:2]\n    r['x'] = a[0, 0]\n    return r['header']['n'][0] * r['x'] + r['header']['m']['f0']\n"),
+    ('structured record: integer field truncates toward zero, list broadcast', "def f(a, b, v):\n    dt = np.dtype(dict(names=['i', 'k'], formats=['3>i4', '6>i4']))\n    r = np.zeros((1,), dtype=dt)\n    r['i'] = v * 10 - 3\n    r['k'] = list((4, 5, 6)[::-1]) + [x + 1 for x in (0, 2, 7)]\n    return r['i'][0] * 100 + r['k'][0][3:]\n"),
     ('maximum / minimum', "def f(a, b, v):\n    return np.maximum(a, 0.5) - np.minimum(a[0], b)\n"),
 ]
 
